@@ -159,6 +159,7 @@ def run(ctx):
             ctx.case(None)
             ctx.oracle_fail("rule-raised:" + method, "rule", args_, obs_, req_, text_)
     jobs = good
+    skipped = set()
     for method, n, a, b in jobs:
         mi = METHODS.index(method)
         if method == "gl":
@@ -169,6 +170,16 @@ def run(ctx):
             extra.append(None)
         elif method == "cc":
             x, w, cap = _capture_ifft(n, a, b)
+            if "out" not in cap:
+                # the rule did not go through np.fft.ifft this time (e.g. a result remembered from an earlier call): the model
+                # cannot be fed; the rule is judged by the oracle alone and the job leaves the correspondence
+                ctx.corr_mismatch("quad.cc", {"n": n, "a": a, "b": b}, "clenshaw_curtis(%d, %r, %r) did not call np.fft.ifft" % (n, a, b))
+                args_ = {"n": n, "a": a, "b": b, "method": method}
+                ok_, obs_, req_, text_ = oracle_rule(args_)
+                if not ok_:
+                    ctx.oracle_fail("rule:" + method, "rule", args_, obs_, req_, text_)
+                skipped.add((method, n, a, b))
+                continue
             lines.append(["quad", 5, n, fb(a), fb(b), fb(np.pi)] + fbs(np.real(cap["out"])))
             lines.append(["cch", n - 1])
             extra.append(cap)
@@ -179,6 +190,8 @@ def run(ctx):
     outs = ctx.model.run(lines)
     k = 0
     for method, n, a, b in jobs:
+        if (method, n, a, b) in skipped:
+            continue
         x, w = _quad(n, a, b, method)
         o = outs[k]
         scale_x = max(abs(a), abs(b))
